@@ -60,6 +60,8 @@ impl InnerMutex {
     #[inline]
     fn lock(&self) {
         if self.futex.compare_exchange(0, 1, Acquire, Relaxed).is_err() {
+            #[cfg(feature = "verif-hooks")]
+            rusl::verif::point(100);
             self.lock_contended();
         }
     }
@@ -69,6 +71,8 @@ impl InnerMutex {
         // Spin first to speed things up if the lock is released quickly.
         let mut state = self.spin();
 
+        #[cfg(feature = "verif-hooks")]
+        rusl::verif::point(101);
         // If it's unlocked now, attempt to take the lock
         // without marking it as contended.
         if state == 0 {
@@ -79,6 +83,8 @@ impl InnerMutex {
         }
 
         loop {
+            #[cfg(feature = "verif-hooks")]
+            rusl::verif::point(102);
             // Put the lock in contended state.
             // We avoid an unnecessary write if it as already set to 2,
             // to be friendlier for the caches.
@@ -87,9 +93,13 @@ impl InnerMutex {
                 return;
             }
 
+            #[cfg(feature = "verif-hooks")]
+            rusl::verif::point(103);
             // Wait for the futex to change state, assuming it is still 2.
             futex_wait_fast(&self.futex, 2);
 
+            #[cfg(feature = "verif-hooks")]
+            rusl::verif::point(104);
             // Spin again after waking up.
             state = self.spin();
         }
@@ -97,6 +107,8 @@ impl InnerMutex {
 
     fn spin(&self) -> u32 {
         let mut spin = 100;
+        #[cfg(feature = "verif-hooks")]
+        let mut spin = rusl::verif::spin_limit(spin);
         loop {
             // We only use `load` (and not `swap` or `compare_exchange`)
             // while spinning, to be easier on the caches.
@@ -115,6 +127,8 @@ impl InnerMutex {
 
     #[inline]
     unsafe fn unlock(&self) {
+        #[cfg(feature = "verif-hooks")]
+        rusl::verif::point(106);
         if self.futex.swap(0, Release) == 2 {
             // We only wake up one thread. When that thread locks the mutex, it
             // will mark the mutex as contended (2) (see lock_contended above),
@@ -126,6 +140,8 @@ impl InnerMutex {
 
     #[cold]
     fn wake(&self) {
+        #[cfg(feature = "verif-hooks")]
+        rusl::verif::point(105);
         let _ = futex_wake(&self.futex, 1);
     }
 }
